@@ -66,12 +66,15 @@ def run(chk, model_ok=True):
             tl = [values.gen_value(rng, allow_real=True) for _ in range(k)]
             vbs = [ber.varbind(n, t[0]) for n, t in zip(names, tl)]
             vals = [t[1] for t in tl]
-            as_report = peer.kind == "v3" and rng.random() < 0.05
+            as_report = peer.kind == "v3" and rng.random() < 0.12
             arg = "1.3.6.1.2.1.1.5.0" if op == "get" else ["1.3.6.1.2.1.1.5.0", "1.3.6.1.2.1.1.6.0"]
+
+            rep_rid = rng.choice(["same", 0, rng.getrandbits(31)])
 
             def replies(req):
                 if as_report:
-                    return [peer.response(req, vbs, pdu_tag=8)]
+                    # Reports are accepted whatever request-id they carry (agents send 0 on unknown user / bad digest)
+                    return [peer.response(req, vbs, pdu_tag=8, request_id=None if rep_rid == "same" else rep_rid)]
                 return [peer.response(req, vbs)]
             r = conv.exchange(op, arg, replies)
             n_e2e += 1
